@@ -669,7 +669,7 @@ def run(chk):
         raise MachineryError("generator produced only %d outlines" % n_exh)
     # deeper behaviours of the same machine by simulation (bigger lattice, more points)
     sim = chk.tlc("MC_PenProto", cfg="MC_PenProto_sim", label="MC_PenProto simulate",
-                  simulate="num=%d" % (30000 if thorough else 2500), depth=16, workers=1,
+                  simulate="num=%d" % (3000 if thorough else 120), depth=16, workers=1,
                   timeout=1500 if thorough else 300)
     known = set(json.dumps(o, separators=(",", ":")) for o in outlines)
     deep = [o for o in gen_outlines(sim.stdout) if json.dumps(o, separators=(",", ":")) not in known]
